@@ -70,6 +70,7 @@ int main(int argc, char** argv) {
   g_property = "C03";
   parse_args(argc, argv);
   install_handlers();
+  use_caching_alloc();
   setvbuf(stdout, 0, _IOLBF, 0);
   char err[512] = "";
   mjSpec* spec = mj_parseXMLString(kModel, nullptr, err, sizeof err);
@@ -94,6 +95,7 @@ int main(int argc, char** argv) {
     g_scenario = describe(ops, final_mode);
     vsim::Config cfg = swarm(r, {0, 0, 20000, 300000}, {}, est_len);
     cfg.starve_victim = r.range(0, 4);
+    cfg.opp_cap = 1000000;   // >100x the largest run on the unchanged tree (~7e3 opportunities; evidence: max_opportunities)
     apply_overrides(cfg);
     mjData* d = mj_makeData(m);
     // ---- run
@@ -109,7 +111,7 @@ int main(int argc, char** argv) {
       } else {
         gen++;
         memset(hits, 0, sizeof hits); memset(busy, 0, sizeof busy); memset(blk, 0, sizeof blk);
-        for (int k = 0; k < 16; k++) tids[k] = -1;
+        for (int k = 0; k < 16; k++) { tids[k] = -1; result[k] = -1; }
         Ctx c{gen, &o};
         size_t ps = d->pstack, pb = d->pbase;
         cur_gen = gen;
